@@ -143,6 +143,12 @@ class Skin(Controller):
         self.weights = sourcebyid[weight_source]
         self.weight_joints = sourcebyid[weight_joint_source]
 
+        vcount_array = numpy.asarray(self.vcounts)
+        if (vcount_array < 0).any() or \
+                len(self.vertex_weight_index) != self.nindices * int(vcount_array.sum()):
+            raise DaeMalformedError('Skin vertex weights must hold exactly %d indices for each influence counted by vcount'
+                                    % self.nindices)
+
         try:
             newshape = []
             at = 0
